@@ -205,7 +205,12 @@ Inductive mev :=
 | EFail (host : string) (status : Z) (t0 t1 : Z) (after : snap)  (* AdjustOnFailure *)
 | ESucc (host : string) (t0 t1 : Z) (after : snap)               (* OnSuccess *)
 | EBurst (host : string) (ivs : list (Z * Z)) (after : snap)     (* concurrent Waits on a present host *)
-| EMix (host : string) (ivs : list (Z * Z)) (extra : Z) (after : snap).
+| EMix (host : string) (ivs : list (Z * Z)) (extra : Z) (after : snap)
+| EConc (host : string) (ivsA : list (Z * Z)) (thr : option Z) (ivsB : list (Z * Z)) (ngets : Z) (after : snap).
+    (* [ngets] calls for one host started together: releases [ivsA] observed among the calls that
+       were concurrent with an optional throttling AdjustOnFailure (entered at or after [thr]),
+       releases [ivsB] among calls started after it had returned; calls still blocked when the
+       observation window closed are not releases *)
     (* concurrent Waits plus [extra] concurrent AdjustOnFailure(503)/OnSuccess calls on a present host *)
 
 Record mcase := MC0 { k_max : Z; k_cap : fl; k_rate : fl; k_evs : list mev }.
@@ -222,15 +227,18 @@ Definition EF (h : string) (s : zi) (t0 t1 : int) (a : wsnap) := EFail h (zi_Z s
 Definition ES (h : string) (t0 t1 : int) (a : wsnap) := ESucc h (iz t0) (iz t1) (snap_of a).
 Definition EB (h : string) (v : wivs) (a : wsnap) := EBurst h (ivs_of v) (snap_of a).
 Definition EM (h : string) (v : wivs) (x : int) (a : wsnap) := EMix h (ivs_of v) (iz x) (snap_of a).
+Definition EC (h : string) (va : wivs) (thr : zi) (vb : wivs) (n : int) (a : wsnap) :=
+  EConc h (ivs_of va) (match thr with ZT0 => None | z => Some (zi_Z z) end) (ivs_of vb) (iz n) (snap_of a).
 Definition MC (mx : zi) (c r : fl) (evs : list mev) : mcase := MC0 (zi_Z mx) c r evs.
 
 Definition ev_after (e : mev) : snap :=
-  match e with EWait _ _ _ a => a | EFail _ _ _ _ a => a | ESucc _ _ _ a => a | EBurst _ _ a => a | EMix _ _ _ a => a end.
+  match e with EWait _ _ _ a => a | EFail _ _ _ _ a => a | ESucc _ _ _ a => a | EBurst _ _ a => a | EMix _ _ _ a => a | EConc _ _ _ _ _ a => a end.
 Definition ev_host (e : mev) : string :=
-  match e with EWait h _ _ _ => h | EFail h _ _ _ _ => h | ESucc h _ _ _ => h | EBurst h _ _ => h | EMix h _ _ _ => h end.
+  match e with EWait h _ _ _ => h | EFail h _ _ _ _ => h | ESucc h _ _ _ => h | EBurst h _ _ => h | EMix h _ _ _ => h | EConc h _ _ _ _ _ => h end.
 (* number of getBucket calls the event makes *)
 Definition ev_gets (e : mev) : nat :=
-  match e with EBurst _ ivs _ => length ivs | EMix _ ivs x _ => (length ivs + Z.to_nat x)%nat | _ => 1%nat end.
+  match e with EBurst _ ivs _ => length ivs | EMix _ ivs x _ => (length ivs + Z.to_nat x)%nat
+  | EConc _ _ _ _ n _ => Z.to_nat n | _ => 1%nat end.
 
 Definition has_key (h : string) (s : snap) : bool := existsb (fun '(k, _) => String.eqb k h) s.
 
@@ -290,6 +298,10 @@ Fixpoint host_evs (h : string) (present : bool) (l : list mev) : list hev :=
           | ESucc _ _ _ _ => []
           | EBurst _ ivs _ => map (fun '(t0, t1) => HRel t0 t1) ivs
           | EMix _ ivs _ _ => map (fun '(t0, t1) => HRel t0 t1) ivs
+          | EConc _ a thr b _ _ =>
+              map (fun '(t0, t1) => HRel t0 t1) a ++
+              (match thr with Some f => [HThr f] | None => [] end) ++
+              map (fun '(t0, t1) => HRel t0 t1) b
           end
         else [] in
       let still := has_key h (ev_after e) in
